@@ -541,6 +541,8 @@ def run(chk, prog):
     # ---- R5: the stored moments are the moments of the stored profiles (formulas decided under C09/R2) ------------
     from . import C09 as c09
     sub = type(chk)("C09", chk.tier)
+    from .. import main as _main
+    _main.check_anchors("C09", prog)
     c09.run(sub, prog)
     r2 = [i for i in sub.instances if i["rule"] == "R2" and any(t in i["what"] for t in ("average", "variance", "rms", "filling[n]", "P[0]", "P[1]"))]
     for i in r2:
